@@ -46,6 +46,9 @@ type incSpec struct {
 	// BlockFullSync: blockingFullSyncOnStart (the constructor returns only after the start-up
 	// full sync; never combined with gates or a planned freeze).
 	BlockFullSync bool `json:"blocking_full_sync,omitempty"`
+	// AwaitFaults: schedule control — the client's uploads of this incarnation begin only after
+	// every planned fault of the incarnation was delivered (pacing only; nothing is judged on it).
+	AwaitFaults bool `json:"await_faults,omitempty"`
 }
 
 type scenario struct {
@@ -83,16 +86,16 @@ type scenario struct {
 	// "new-sync-handler" = server.NewSyncHandler.  SrcKey: "pointer" = the source is a pointer (as
 	// everywhere else), "value-1m" = a comparable value type with a 1 MiB body.  AttachLateParty
 	// (0 handler, 1 competitor) leaves the rendez-vous AttachLateNs nanoseconds after the other.
-	Attach          string `json:"attach,omitempty"`
-	AttachCtor      string `json:"attach_ctor,omitempty"`
-	SrcKey          string `json:"src_key,omitempty"`
-	AttachLateParty int    `json:"attach_late_party,omitempty"`
-	AttachLateNs    int    `json:"attach_late_ns,omitempty"`
-	blobs []sto.Blob // not serialised
-	hist  []int      // the full history (History is abbreviated in witnesses of big scenarios)
-	extra []sto.Blob // destination-only blobs
-	big   bool       // holds much memory: stores are emptied when the scenario is over
-	pre   *prestarted // attach-race: world and first incarnation already exist (see prestart)
+	Attach          string      `json:"attach,omitempty"`
+	AttachCtor      string      `json:"attach_ctor,omitempty"`
+	SrcKey          string      `json:"src_key,omitempty"`
+	AttachLateParty int         `json:"attach_late_party,omitempty"`
+	AttachLateNs    int         `json:"attach_late_ns,omitempty"`
+	blobs           []sto.Blob  // not serialised
+	hist            []int       // the full history (History is abbreviated in witnesses of big scenarios)
+	extra           []sto.Blob  // destination-only blobs
+	big             bool        // holds much memory: stores are emptied when the scenario is over
+	pre             *prestarted // attach-race: world and first incarnation already exist (see prestart)
 }
 
 func clean() incSpec { return incSpec{Uploads: -1, FreezeAt: -1} }
@@ -864,6 +867,80 @@ func generate(rng *rand.Rand, thorough bool) []*scenario {
 						Dest: dest, History: seq(m), Incs: []incSpec{{Uploads: -1, FreezeAt: int64(k)}, clean()}, Via: "replica"}, bl)
 				}
 			}
+		}
+	}
+
+	// ---- family "full-sync-reupload": the source holds blobs WITHOUT a queue row when the handler
+	// starts with fullSyncOnStart / blockingFullSyncOnStart (optionally beside rows left pending by a
+	// crashed incarnation); a finite number of transient failures hits every copy the start-up sync
+	// makes, so the start-up sync delivers none of them.  AFTER those failures the client sends each of
+	// these blobs again, through the hub, in the same process (plus one fresh blob): these are
+	// ordinary acknowledged uploads, each is owed to the destination once the failures have stopped.
+	{
+		type rv struct {
+			kind  string
+			dest  string
+			block bool
+			rows  int // blobs uploaded (and left pending) in a crashed first incarnation
+		}
+		var variants []rv
+		if thorough {
+			for _, k := range []string{"dst-receive-error", "dst-receive-misreport", "dst-receive-error-after-effect",
+				"src-fetch-error", "src-fetch-corrupt", "src-fetch-short", "src-fetch-wrong-size"} {
+				for _, dest := range dests {
+					for _, block := range []bool{false, true} {
+						variants = append(variants, rv{k, dest, block, 0})
+					}
+					variants = append(variants, rv{k, dest, k[0] == 'd', 2})
+				}
+			}
+		} else {
+			variants = []rv{
+				{"dst-receive-error", "memory", true, 0},
+				{"dst-receive-error", "index", false, 0},
+				{"src-fetch-error", "memory", false, 2},
+				{"src-fetch-wrong-size", "index", true, 0},
+			}
+		}
+		for _, v := range variants {
+			var kd kindDef
+			for _, k := range faultKinds {
+				if k.name == v.kind {
+					kd = k
+				}
+			}
+			p := 3
+			// blobs [0,p): in the source before any handler exists; [p,p+rows): uploaded in the crashed
+			// incarnation; the last one: fresh, uploaded after the start-up sync
+			bl := blobsFor(rng, v.dest, p+v.rows+1, tag())
+			hist := seq(p + v.rows + 1)[p:] // the crashed incarnation's uploads come first …
+			if v.rows == 0 {
+				hist = nil
+			} else {
+				hist = hist[:v.rows]
+			}
+			hist = append(hist, seq(p)...)              // … then every pre-existing blob is sent (again) …
+			hist = append(hist, seq(p + v.rows)[p:]...) // … and the blobs of the crashed incarnation …
+			hist = append(hist, p+v.rows)               // … and a fresh one
+			mode := "async"
+			if v.block {
+				mode = "blocking"
+			}
+			// the pending-queue pass fails for every row, then the full pass fails for every source blob
+			rec := incSpec{Uploads: -1, FreezeAt: -1, FullSync: !v.block, BlockFullSync: v.block, AwaitFaults: true,
+				Faults: []faultSpec{{Layer: kd.layer, Op: kd.op, Mode: kd.mode, Nth: seq(2*v.rows + p)}}}
+			incs := []incSpec{rec}
+			if v.rows > 0 {
+				incs = []incSpec{
+					{Uploads: v.rows, FreezeAt: -1, CrashNow: true, Faults: []faultSpec{{Layer: "dst", Op: "ReceiveBlob", Mode: "error", Nth: seq(40)}}},
+					rec,
+				}
+			}
+			add(&scenario{
+				ID:     fmt.Sprintf("FR/%s/%s/%s/rows%d", v.kind, v.dest, mode, v.rows),
+				Family: "full-sync-reupload", Kind: "reupload-after-failed-full-sync-copy+" + v.kind, Dest: v.dest, History: hist,
+				Incs: incs, PreSrc: p,
+			}, bl)
 		}
 	}
 	return out
